@@ -1,7 +1,7 @@
 """C01 — every PWM value written while regulating stays inside the fan's limits."""
 from ..check import Prop, Stream
 from .. import streams
-from .common import kv, cases, parse_int_map, distinct_keys, world_ok, viol
+from .common import kv, cases, parse_int_map, distinct_keys, nearest_ok, world_ok, viol
 from . import ctrl
 
 
@@ -47,7 +47,9 @@ class C01(Prop):
             if len(cops) < 2 or not cops[1].startswith("w.new") or not world_ok(cops[1]):
                 continue
             m = parse_int_map(kv(cops[1])["map"])
-            outputs = {m[k] for k in distinct_keys(m)}
+            keys = distinct_keys(m)
+            outputs = {m[k] for k in keys}
+            allowed_cache = {}
             for i, op, pre, post in ctrl.walk(cops, cgo):
                 if not (op.startswith("w.cycle") or op.startswith("w.calc")):
                     continue
@@ -66,13 +68,26 @@ class C01(Prop):
                     out.append(viol(f"requested PWM {t} outside the fan's limits [{lo},{hi}]", cops, cgo, upto=i))
                     break
                 bad = None
+                # what may be written in this cycle: the map's output for a supported input that is nearest to SOME request
+                # inside the limits in force (either neighbour on a tie)
+                allowed = None
+                if 0 <= lo <= hi <= 255 and post.get("log", "-") != "-":
+                    if (lo, hi) not in allowed_cache:
+                        sk = sorted(keys)
+                        acc = set()
+                        for t2 in range(lo, hi + 1):
+                            d = min(abs(k - t2) for k in sk)
+                            acc.update(m[k] for k in sk if abs(k - t2) == d)
+                        allowed_cache[(lo, hi)] = acc
+                    allowed = allowed_cache[(lo, hi)]
                 for w in ([] if post.get("log", "-") == "-" else post["log"].split(",")):
                     if w.startswith("pwm="):
                         v = int(w[4:].split(":")[0])
-                        if v not in outputs or not (0 <= v <= 255):
+                        if v not in outputs or not (0 <= v <= 255) or (allowed is not None and v not in allowed):
                             bad = v
                 if bad is not None:
-                    out.append(viol(f"wrote PWM {bad}, which is not the PWM-map output of a supported input (outputs {sorted(outputs)[:12]}...)", cops, cgo, upto=i))
+                    out.append(viol(f"wrote PWM {bad}, which is not the PWM-map output of the supported input nearest to any request inside the limits "
+                                    f"[{lo},{hi}] (allowed {sorted(allowed if allowed is not None else outputs)[:12]}...)", cops, cgo, upto=i))
                     break
         return out
 
